@@ -147,7 +147,8 @@ def gen(rng, strategy, signal_case=False):
         comp["vehicles"][vid] = {"vehicle_type": "vt", "soc": soc0, "desired_soc": desired, "_arr": arr_step, "_margin": margin, "_cs": cs}
     return {"js": {"scenario": {"start_time": iso(start), "interval": interval, "n_intervals": n + 2}, "components": comp, "events": ev},
             "pattern": pat, "strategy": strategy, "extra": extra, "signal_case": signal_case,
-            "dep_offset": rng.choice([0, 0, 0, -3, 4]), "seed": rng.randrange(10**6)}
+            "dep_offset": rng.choice([0, 0, 0, -3, 4]), "seed": rng.randrange(10**6),
+            "enc_start": (next((i for i in range(n) if pat[i]), None) if directed else None), "enc_extra": rng.choice([1, 2, 4])}
 
 
 def limit_series(js, n, with_fixed=True):
@@ -216,6 +217,9 @@ def finish(case, rng_seed=None):
                 return None
         else:
             d = min(len(allowed), math.ceil(need * margin))
+            if case.get("enc_start") is not None:
+                # directed: the standing period reaches into the late encouraged part
+                d = min(len(allowed), max(d, case["enc_start"] - a + case["enc_extra"]))
         dep = start + dt * (a + d) + datetime.timedelta(minutes=case["dep_offset"] if case["dep_offset"] > -interval else 0)
         if case["dep_offset"] < 0 and d <= need and not case["signal_case"]:
             dep = start + dt * (a + d)                      # keep the needed time
